@@ -70,6 +70,13 @@ def tail_rules(ctx, prog):
             rs = t.s(r) if r is not None else None
             if a['k'] == 'UnaryOperator' or a.get('op') != '=' or rs not in ('psf_fseek(psf, 0, 2)', 'psf_fseek(psf, 0, SEEK_END)', '(psf->dataoffset + psf->datalength)'):
                 bad.append((a, rs))
+        # the recomputation from the frame count must not be suppressed by the value it replaces: a stale psf->dataend (left by the parser, not cleared by
+        # SFC_FILE_TRUNCATE) would survive to close and the tail chunks would be written at the old end of the audio
+        for lv, a, r in assigned_lvalues(t):
+            if lv == 'psf->dataend' and r is not None and t.s(r) == '(psf->dataoffset + psf->datalength)':
+                for anc in t.ancestors(a):
+                    if anc['k'] == 'IfStmt' and 'dataend' in t.s(anc['cond']):
+                        bad.append((anc, 'the end of the audio is recomputed from the frame count only under `%s`: a stale non-zero dataend is kept' % t.s(anc['cond'])[:60]))
         ctx.ob('TAILER-DATAEND', t.name, not bad, t.loc(bad[0][0]) if bad else t.loc(t.body), '%d assignment(s) of psf->dataend, all end-of-audio positions' % n_as if not bad else
                'psf->dataend modified by `%s` (%s): bytes that are not audio (padding) are counted into the data length, the header written at close reports too many frames' % (t.s(bad[0][0])[:60], bad[0][1]), None)
         # TAIL-STALE
@@ -232,7 +239,8 @@ def run(ctx):
              'if the reader has an arm keyed by c that names subformats, the writer\'s subformat is among them (reader (writer (s)) = s on the named codes)', floor=25)
     subnames = {k for k, v in E.items() if k.startswith('SF_FORMAT_') and 0 < v < 0x10000}
     PAIRS = [('wav_write_fmt_chunk', ['wav_read_header']), ('wavex_write_fmt_chunk', ['wavlike_read_fmt_chunk']), ('w64_write_header', ['w64_read_header']),
-             ('au_format_to_encoding', ['au_read_header']), ('aiff_write_header', ['aiff_read_comm_chunk'])]
+             ('au_format_to_encoding', ['au_read_header']), ('aiff_write_header', ['aiff_read_comm_chunk']),
+             ('rf64_write_fmt_chunk', ['wavlike_read_fmt_chunk']), ('caf_write_header', ['decode_desc_chunk'])]
 
     def iscode(x):
         return not (x.startswith('SF_') or x.startswith('SFE_') or x.startswith('BHW') or x.startswith('SIZEOF') or x in ('MAKE_MARKER', 'default', 'NULL')) and not x.isdigit()
